@@ -49,9 +49,9 @@ def gen_plan(prop, run_seed, tier):
     model = w.choice(["sdc", "sdc", "sdci"])
     arity = 2 if model == "sdci" else w.choice([2, 2, 2, 1])
     if arity == 2:
-        spec = pipe.gen_pipeline_screen(w, n_plates=w.randint(1, 5), n_samples=w.randint(1, 4), control=w.choice(["", "control"]))
+        spec = pipe.gen_pipeline_screen(w, n_plates=w.randint(1, 5), n_samples=w.randint(1, 4), control=w.choice(["", "control"]), big_rate=0.05)
     else:
-        spec = pipe.gen_pipeline_screen(w, n_plates=w.randint(1, 4), n_samples=w.randint(1, 3))
+        spec = pipe.gen_pipeline_screen(w, n_plates=w.randint(1, 4), n_samples=w.randint(1, 3), big_rate=0.05)
         for r in spec["rows"]:
             r[1] = [r[1][0] if r[1][0][1] > 0 else r[1][1]]
         spec["arity"] = 1
